@@ -6,7 +6,7 @@ From Coq Require Import String.
 From Coq Require Import List Arith ZArith.
 Import ListNotations.
 From YP Require Import Base.Str Term.Term Term.Fast Unify.Unify Unify.Fast Lang.Ast Comp.IR Comp.CompileBody Comp.CompileClause
-  Sem.Res Sem.RefSem Sem.IRSem Sem.ControlCorrect Sem.Machine Sem.ClauseSem Sem.ProgramCorrect Sem.SpecLemmas.
+  Sem.Res Sem.RefSem Sem.IRSem Sem.ControlCorrect Sem.Machine Sem.ClauseSem Sem.ProgramCorrect Sem.SpecLemmas Sem.FindallShare Sem.ScopeSpec.
 Local Open Scope string_scope.
 Local Open Scope list_scope.
 
@@ -70,10 +70,50 @@ Theorem C09_findall_at_most_once : forall call t g l s r,
 Proof. exact findall_at_most_once. Qed.
 Print Assumptions C09_findall_at_most_once.
 
+(* ... and ONLY those: an unbound variable of the caller that occurs in an instance is not copied, it is the caller's
+   variable itself inside the list (this engine's findall/3; standard Prolog collects renamed copies).  Witness, on the
+   compiled-code model and on the clause-level reference:  t(V) :- findall(X, X = V, [b]).   ?- t(V).   answers V = b
+   (reported as a finding in notes/C09.md; the implementation answers V = b as well). *)
+Theorem C09_findall_shares_caller_variables :
+  exists ir, compile_program share_prog = Some ir /\
+  map (fun x => den (sto x) (TVar 0)) (fst (query 10 ir (d "t") [TVar 0] {| sto := []; nxt := 1 |})) = [TAtom (d "b")] /\
+  map (fun x => den (sto x) (TVar 0)) (fst (solveA 10 share_prog (d "t") [TVar 0] {| sto := []; nxt := 1 |})) = [TAtom (d "b")].
+Proof. exact findall_shares_caller_variables. Qed.
+Print Assumptions C09_findall_shares_caller_variables.
+
 (* X = Y has the answers of unification (C02) *)
 Theorem C09_eq_spec : forall call a b s, builtin call (s_ "=") [a; b] s = Some (unify_st s a b).
 Proof. exact eq_spec. Qed.
 Print Assumptions C09_eq_spec.
+
+(* ... and its bindings live in those answers only: whatever a goal A binds (A may be X = T, the first occurrence of X or
+   not), when the goals G after it in the same scope fail for every answer of A, the construct around the scope goes on from
+   the state in which it was ENTERED: the else branch of an if-then-else, *)
+Theorem C09_condition_failure_discards_bindings : forall (S : Type) (I : str -> list sterm -> S -> list S * bool) A G T E s xs,
+  sem I A s = (xs, FNorm) -> (forall x, In x xs -> sem I G x = ([], FNorm)) ->
+  sem I (BOr (BIf (BAnd A G) T) E) s = sem I E s.
+Proof. exact condition_failure_discards_bindings. Qed.
+Print Assumptions C09_condition_failure_discards_bindings.
+
+(* ... the goals after the if-then-else, *)
+Theorem C09_after_failed_condition : forall (S : Type) (I : str -> list sterm -> S -> list S * bool) A G T E K s xs,
+  sem I A s = (xs, FNorm) -> (forall x, In x xs -> sem I G x = ([], FNorm)) ->
+  sem I (BAnd (BOr (BIf (BAnd A G) T) E) K) s = sem I (BAnd E K) s.
+Proof. exact after_failed_condition. Qed.
+Print Assumptions C09_after_failed_condition.
+
+(* ... the goals after a negation (which never passes a binding on, whatever its goal does), *)
+Theorem C09_negation_discards_bindings : forall (S : Type) (I : str -> list sterm -> S -> list S * bool) G s x,
+  In x (fst (sem I (BNot G) s)) -> x = s.
+Proof. exact negation_answers_entry_state. Qed.
+Print Assumptions C09_negation_discards_bindings.
+
+(* ... and the other branch of a disjunction. *)
+Theorem C09_branch_failure_discards_bindings : forall (S : Type) (I : str -> list sterm -> S -> list S * bool) A G B s xs,
+  sem I A s = (xs, FNorm) -> (forall x, In x xs -> sem I G x = ([], FNorm)) ->
+  sem I (BOr (BAnd A G) B) s = sem I B s.
+Proof. exact branch_failure_discards_bindings. Qed.
+Print Assumptions C09_branch_failure_discards_bindings.
 
 (* X \= Y succeeds once, with the unchanged state, exactly when X and Y do not unify *)
 Theorem C09_neq_spec : forall call a b s,
@@ -99,3 +139,16 @@ Proof.
   - repeat constructor.
   - eexists. split; [vm_compute; reflexivity|]. vm_compute. reflexivity.
 Qed.
+
+(* non-vacuity of the scope theorems on the compiled-code model:
+   t(R) :- ( X = a, ok(X) -> R = then(X) ; R = else(X) ).   ok(b).      ?- t(R).   R = else(_): the binding X = a is gone *)
+Definition scope_prog : program :=
+  [ {| c_name := d "t"; c_args := [SVar (d "R")];
+       c_body := BOr (BIf (BAnd (BCall (d "=") [SVar (d "X"); SAtom (d "a")]) (BCall (d "ok") [SVar (d "X")]))
+                          (BCall (d "=") [SVar (d "R"); SFun (d "then") [SVar (d "X")]]))
+                     (BCall (d "=") [SVar (d "R"); SFun (d "else") [SVar (d "X")]]) |};
+    {| c_name := d "ok"; c_args := [SAtom (d "b")]; c_body := BTrue |} ].
+Example C09_nonvacuous_scope :
+  exists ir, compile_program scope_prog = Some ir /\
+  exists k, map (fun x => den (sto x) (TVar 0)) (fst (query 10 ir (d "t") [TVar 0] {| sto := []; nxt := 1 |})) = [TFun (d "else") [TVar k]].
+Proof. eexists. split; [vm_compute; reflexivity|]. eexists. vm_compute. reflexivity. Qed.
